@@ -351,6 +351,7 @@ struct H {
         if (!(fnoise == fnoise) || std::isinf((double)fnoise)) { c.label("field-unconstrained"); return; }
         double e = (double)expv;
         if (std::isnan(e)) { c.label("expected-nan"); return; }
+        if (std::isinf(e) && fnoise > 0) { c.label("field-unconstrained"); return; }     // a pole of the view formula reached through a conversion
         if (std::isinf(e)) { PBT_CHECK(c, std::isinf(t.val) && (t.val > 0) == (e > 0), "C06.file_value", "%s f%d #%d: file has %s, expected %g", what, fi, idx, t.text.c_str(), e); return; }
         if (p == PMAX && direct && fnoise == 0) {
             PBT_CHECK(c, t.val == e, "C06.max_precision_not_exact", "%s f%d #%d: file has %s (= %a) but the object holds %a", what, fi, idx, t.text.c_str(), t.val, e);
@@ -497,7 +498,7 @@ struct H {
                 const std::vector<Tok> &row = P.cols[fi];
                 ld fr = (ld)f[fi];
                 bool direct = true; for (auto &q : ev) if (q.noise > 0) direct = false;
-                // a value whose conversion noise exceeds 1e-9 of its size (sensitivity amplification > ~500) is numerically undetermined
+                // a value whose conversion noise exceeds 1e-9 of its size (sensitivity amplification > ~130) is numerically undetermined
                 // (singular or nearly singular conversion): nothing meaningful to compare
                 for (auto &q : ev) if (!(q.noise <= ILL * std::abs(q.v))) { illcond = true; q.noise = INFINITY; }
                 int p = p_d();
